@@ -179,6 +179,7 @@ void h_string_list_value(void)
 int in_setjmp_ret; int in_entries;
 struct { char s[4]; } in_file;
 static unsigned replace_calls, entry_calls, entries_before_replace;
+#ifndef VERIF_NATIVE          /* (native replays of the tokenizer jobs use libc's setjmp) */
 int _setjmp(struct __jmp_buf_tag *env)
 {
     if (in_setjmp_ret != 0) {
@@ -194,6 +195,7 @@ int _setjmp(struct __jmp_buf_tag *env)
     }
     return in_setjmp_ret;
 }
+#endif
 char *model_conf_read_file(struct conf_parse *parse, const char *filename)
 {
     char *d = malloc(4); unsigned i;
